@@ -263,6 +263,31 @@ def run(ck, facts, tier):
                          % (len(sites), k2[1], AUDIT.get(k2, (0, ""))[0]))
     ck.floor(R, "audited-adaptor-sites", sum(len(v) for v in seen.values()), 3)
 
+    R = "C22.WRITER-RUNS-TO-END"
+    ck.rule(R, "K6-style inventory (expected count 0; positive control: the detector must see the explicit return of "
+               "display::state::IdAliasStore or any other function of the crate): the item writers - RenderAsRust::fmt of ImplDatum, "
+               "TraitDatum, AdtDatum, FnDefDatum, OpaqueTyDatum, AssociatedTyDatum, AssociatedTyValue - contain no explicit `return` "
+               "(only `?` on formatter errors): a writer that returns early for some polarity / flag / kind skips whatever is rendered "
+               "after that point (where clauses, the body) and prints a different, still parsable program")
+    from kit import user_block
+    def explicit_returns(th_):
+        return [x for x in walk(user_block(th_)) if x.get("k") == "return" and "QuestionMark" not in str(x.get("x", "")) and "`?`" not in str(x.get("x", ""))]
+    n_w = 0
+    for item in ("ImplDatum", "TraitDatum", "AdtDatum", "FnDefDatum", "OpaqueTyDatum", "AssociatedTyDatum", "AssociatedTyValue"):
+        wb = facts.body(RENDER % item)
+        if wb is None or wb.thir is None:
+            continue
+        n_w += 1
+        ers = explicit_returns(facts.thir(RENDER % item))
+        if ers:
+            ck.violation(R, "%s:explicit-return" % item, wb.where(ers[0].get("ln")), "the writer of %s returns before its end on some path" % item)
+        else:
+            ck.ok(R, "%s:no-explicit-return" % item)
+    ck.floor(R, "item-writers", n_w, 6)
+    ctrl = sum(len(explicit_returns(b_.thir)) for k_, b_ in facts.bodies("chalk_solve").items() if b_.thir is not None and "{" not in k_ and "chalk_solve::clauses" in k_)
+    if ctrl == 0:
+        ck.violation(R, "positive-control", "", "the explicit-return detector sees no `return` anywhere in chalk_solve::clauses: it has gone blind")
+
     R = "C22.NAME-INJECTIVE"
     ck.rule(R, "K1/K3: the writer gives different ids different names: IdAliasStore::alias_for_id_name looks the alias up by *id*, draws a "
                "new alias from a counter kept per *name* and advances that counter, and prints `name` for alias 0 and `name_<alias>` "
